@@ -144,6 +144,8 @@ func c06Src(op c06Op) string {
 		return "OFS = " + c06Quote(c06OFSVals[op.I])
 	case "csv":
 		return `OUTPUTMODE = "csv"`
+	case "nocsv":
+		return `OUTPUTMODE = ""`
 	case "sub":
 		return `o(-3, sub(/a/, "z", ` + ix + `))`
 	case "gsub":
@@ -209,6 +211,7 @@ func c06Alphabet(full bool) []c06Op {
 			add("ofs", i, 0)
 		}
 		add("csv", 0, 0)
+		add("nocsv", 0, 0)
 		for _, i := range []int{0, 1, 3, 4} {
 			add("sub", i, 0)
 		}
@@ -253,6 +256,7 @@ func c06Alphabet(full bool) []c06Op {
 	}
 	add("ofs", 0, 0)
 	add("csv", 0, 0)
+	add("nocsv", 0, 0)
 	add("sub", 1, 0)
 	add("gsub", 0, 0)
 	add("ghat", 5, 0)
@@ -533,6 +537,8 @@ func (m *c06Model) apply(op c06Op) (evs []c06Ev, mayErr bool, ok bool) {
 		m.ofs = c06OFSVals[op.I]
 	case "csv":
 		m.csv = true
+	case "nocsv":
+		m.csv = false
 	case "sub", "gsub", "ghat":
 		old, any := m.get(idx)
 		if any {
@@ -689,7 +695,9 @@ function T() { o(-7, 0); D(); o(-7, 1); D(); o(-7, 2); D() }
 
 // variant 0: the full triple dump after every step; variant 1 ("lazy"): only
 // $0 is read after intermediate steps (which must not force the split), the
-// triple dump comes after the last step.
+// triple dump comes after the last step; variant 2 ("silent"): nothing is read
+// between the steps (a rebuild of $0 that is deferred to the next read must
+// still use the OFS / output mode in force when the field or NF was assigned).
 func c06Program(ops []c06Op, variant int, begin bool) string {
 	var b strings.Builder
 	b.WriteString(c06Prelude)
@@ -704,7 +712,7 @@ func c06Program(ops []c06Op, variant int, begin bool) string {
 		fmt.Fprintf(&b, "o(-8, %d); %s\n", k+1, c06Src(op))
 		if variant == 0 || k == len(ops)-1 {
 			b.WriteString("T()\n")
-		} else {
+		} else if variant == 1 {
 			b.WriteString("o(0, $0)\n")
 		}
 	}
@@ -740,7 +748,7 @@ func c06Expect(st c06StartT, ops []c06Op, variant int) (evs []c06Ev, cuts map[in
 				m.touched = true
 			}
 			evs = m.triple(step, evs)
-		} else {
+		} else if variant == 1 {
 			evs = append(evs, c06Ev{Tag: 0, Val: m.rec, Step: step})
 		}
 	}
@@ -882,13 +890,13 @@ func c06Stream(act []c06Obs) string {
 // c06CheckHistory runs one (start, history) in both variants. progs may be
 // nil (then the programs are parsed here).
 func c06CheckHistory(c *core.Ctx, r *c06Runner, st c06StartT, ops []c06Op, progs []*parser.Program, dup bool) {
-	var kinds [2]string
-	var steps [2]int
-	var details [2]string
+	var kinds [3]string
+	var steps [3]int
+	var details [3]string
 	var final string
-	for variant := 0; variant < 2; variant++ {
-		if variant == 1 && len(ops) < 2 {
-			kinds[1] = kinds[0] // identical program
+	for variant := 0; variant < 3; variant++ {
+		if variant >= 1 && len(ops) < 2 {
+			kinds[1], kinds[2] = kinds[0], kinds[0] // identical programs
 			break
 		}
 		exp, cuts, m, ok := c06Expect(st, ops, variant)
@@ -920,12 +928,15 @@ func c06CheckHistory(c *core.Ctx, r *c06Runner, st c06StartT, ops []c06Op, progs
 		}
 	}
 	c.Outcome(final)
-	if kinds[0] == "" && kinds[1] == "" {
+	if kinds[0] == "" && kinds[1] == "" && kinds[2] == "" {
 		return
 	}
 	v := 0
 	only := ""
-	if kinds[0] == "" {
+	if kinds[0] == "" && kinds[1] == "" {
+		v = 2
+		only = " only=silent-variant"
+	} else if kinds[0] == "" {
 		v = 1
 		only = " only=lazy-variant"
 	} else if kinds[1] == "" && len(ops) >= 2 {
@@ -978,9 +989,9 @@ func c06AllHistories(c *core.Ctx, r *c06Runner, alpha []c06Op, starts []c06Start
 				for i, k := range idx {
 					ops[i] = alpha[k]
 				}
-				var progs, bprogs [2]*parser.Program
-				for v := 0; v < 2; v++ {
-					if v == 1 && d < 2 {
+				var progs, bprogs [3]*parser.Program
+				for v := 0; v < 3; v++ {
+					if v >= 1 && d < 2 {
 						break
 					}
 					progs[v] = awk.MustParse(c06Program(ops, v, false), r.funcs)
@@ -1601,7 +1612,7 @@ func init() {
 		Level: "model_checking",
 		Rule: "Part 1, explicit-state search over histories of record operations. A state is one state of the record model (record text, field list = NF, FS in force for the record + " +
 			"pending-lazy-split flag, FS, OFS, output mode, positions in the main input and in the getline file); a transition is one (start, history) rendered as one AWK program and replayed from scratch " +
-			"on the real interpreter in two variants (triple dump of NF/$0/$1..$(NF+1) after every step; or only $0 read after intermediate steps, so that the lazy split stays pending, and the triple dump at the end) " +
+			"on the real interpreter in three variants (triple dump of NF/$0/$1..$(NF+1) after every step; only $0 read after intermediate steps, so that the lazy split stays pending, and the triple dump at the end; nothing read between the steps, so that a deferred rebuild of $0 would stay pending across OFS / OUTPUTMODE changes) " +
 			"and compared observation by observation (values read, return values of sub/gsub/getline, dumps, re-read dumps) with the model. " +
 			"Starts: 6 first records x 6 FS values read by the main loop + the BEGIN block (no record yet) x 6 FS = 42. " +
 			"quick: every history of depth<=3 (no de-duplication) over a reduced 40-operation alphabet (every kind of operation kept, fewer index expressions/values per kind) x 19 starts (6 records x FS in {space, comma, x*} + BEGIN). " +
